@@ -633,12 +633,16 @@ class RIndSimplex(RIndicator):
                          else float(sum_rtol))
 
     def excess(self, v, amb=0.0):
+        """Two constraints with their own rounding scales (no summation is
+        involved in the sign constraint): the larger of the two excesses in
+        units of its tolerance, against 1."""
         v = np.asarray(v, dtype=float)
-        sc = max(float(np.abs(v).max()) if v.size else 0.0, abs(self.r), amb)
-        tol = _tol(self.sp.size, sc)
+        vm = float(np.abs(v).max()) if v.size else 0.0
+        tol_sum = _tol(self.sp.size, max(vm, abs(self.r), amb))
+        tol_neg = _tol(1, max(vm, amb))
         neg = float(np.max(-v)) if v.size else 0.0
         s = float(np.sum(v.astype(LD)))
-        return max(neg, abs(s - self.r)), tol
+        return max(neg / tol_neg, abs(s - self.r) / tol_sum), 1.0
 
     def doc_excess(self, v, margin=1.0):
         """Documented membership test of the class (relative sum tol)."""
